@@ -565,7 +565,7 @@ def run(ctx):
     jobs1 = enum_jobs_3d(ctx.seed + 5, ctx.pick(2, 3), [2, 4, NAN], [0, 2, NAN], [5], "all_3d_onelayer", every_agg=True)
     scope_check(ctx, jobs1, ctx.pick(2, 3), [2, 4, NAN], [0, 2, NAN], 1, "scope_3d_onelayer")
     jobs += jobs1
-    jobs += multiset_jobs_2d(ctx.seed + 1, ctx.pick(5, 6), ZC, VC, "multiset")
+    jobs += multiset_jobs_2d(ctx.seed + 1, ctx.pick(4, 6), ZC, VC, "multiset")
     # ---- T: seeded larger rasters (same worker processes / judge JVMs as R: start-up dominates the quick tier)
     jobs += random_jobs(ctx.seed, ctx.pick(1500, 40000))
     jobs += matrix_jobs(ctx.seed, ctx.pick(60, 600))
